@@ -85,6 +85,29 @@ pub fn tree_json_nested(a: &Allocator, root: NodePtr) -> Value {
 
 /// Build a tree in the allocator with `new_atom` for every atom (each JSON node is
 /// allocated once; no sharing).
+/// the tree with MAXIMAL sharing: equal sub-trees (atoms and pairs) are one node (nested form only, small trees)
+pub fn json_tree_shared(a: &mut Allocator, v: &Value) -> Result<NodePtr, EvalErr> {
+    fn rec(a: &mut Allocator, v: &Value, memo: &mut std::collections::HashMap<String, NodePtr>) -> Result<NodePtr, EvalErr> {
+        let key = v.to_string();
+        if let Some(n) = memo.get(&key) {
+            return Ok(*n);
+        }
+        let n = if let Some(b) = v.get("a") {
+            a.new_atom(&json_bytes(b))?
+        } else {
+            let f = rec(a, &v["f"], memo)?;
+            let r = rec(a, &v["r"], memo)?;
+            a.new_pair(f, r)?
+        };
+        memo.insert(key, n);
+        Ok(n)
+    }
+    if v.get("t").is_some() {
+        return json_tree(a, v);
+    }
+    rec(a, v, &mut std::collections::HashMap::new())
+}
+
 pub fn json_tree(a: &mut Allocator, v: &Value) -> Result<NodePtr, EvalErr> {
     if let Some(tab) = v.get("t").and_then(|t| t.as_array()) {
         // flat form: {"t":[node,..]}, node = {"a":[bytes]} | {"p":[i,j]} (1-based, earlier entries), root last
